@@ -1,5 +1,5 @@
 From Coq Require Import List ZArith NArith Bool.
-From Circ Require Import Lib.Obs Model.Auth Model.Session.
+From Circ Require Import Lib.Obs Model.Auth Model.Session Model.VHost.
 Import ListNotations.
 Open Scope N_scope.
 
@@ -15,3 +15,6 @@ Definition obs_session (shat : list (str * str)) (h : list (req * action * str))
    (None = the name is not in request.cookie), recorded from the real Request *)
 Definition cookie_tbl (ct : list (str * option str)) (raw : str) : option str :=
   match lookup raw ct with Some v => v | None => None end.
+
+(* a request whose address is request.remote.ip as the real Request gave it (None: no address) *)
+Definition mkreq_remote (c : option str) (remote : option str) (a : str) : req := mkreq c (ip_text remote) a.
